@@ -72,7 +72,7 @@ def strategy_(draw, tier):
         method=draw(st.sampled_from(["inside_outside", "maximization"])),
         spec=draw(D.prior_spec(favour_wide=True)),
         theta=draw(D.rate_spec(-2, 1)),
-        eps=draw(st.sampled_from([None, None, 1e-10, 1e-6, 1e-2, 1.0])),
+        eps=draw(st.sampled_from([None, None, 0.0, 1e-10, 1e-6, 1e-2, 1.0])),
     )
 
 
@@ -290,6 +290,10 @@ def check(case, ctx):
                                  f"logarithmic {lg!r}"))
     elif np.isfinite(lg) and abs(lg) > EXTREME:
         ctx.label("likelihood_beyond_double_range")  # exp(loglik) is not representable: out of domain
+    elif (np.isnan(lin_l) and np.isnan(lg)) or (lin_l == 0.0 and lg == -np.inf):
+        # both spaces report the same degenerate value (eps=0: zero-rate Poisson terms give 0/0 or an
+        # impossible configuration in both): the two spaces agree, which is all C12 asks
+        ctx.label("likelihood_degenerate_in_both_spaces")
     else:
         out.append(Violation(f"{method}:likelihood_unrepresented", f"linear likelihood {lin_l!r} although the "
                              f"logarithmic one is {lg!r}"))
